@@ -41,6 +41,11 @@ func init() {
 		p.env = func() { w.setupBootstrapOTP(st.User, st.D) }
 		return p
 	}
+	// the N-th storage call of the next request fails (disk / connection error)
+	vfExtraOps["dbfail"] = func(w *vfWorld, st vfStep, p *vfPrepared) *vfPrepared {
+		p.env = func() { w.pendingDBFault = int(st.N) }
+		return p
+	}
 	vfExtraOps["vipfail"] = func(w *vfWorld, st vfStep, p *vfPrepared) *vfPrepared {
 		p.env = func() { w.vipsim.Fail = st.N != 0; w.fault("2fa.backend.error") }
 		return p
@@ -113,6 +118,24 @@ func genAuthPlan(r *rand.Rand, tier, focus string) *vfPlan {
 		n = 15 + r.IntN(35)
 	}
 	sessUser := map[string]string{}
+	if focus == "C05" && chance(r, 0.12) {
+		// one-time value under a storage fault: the OTP is presented while the N-th storage call of
+		// that request fails, then presented again from another session of the same user
+		u := pick(r, vfHonestUsers)
+		p.Steps = nil
+		add(vfStep{Op: "setup_bootstrap", User: u, D: "1h"})
+		add(vfStep{Op: "login", Sess: "s1", User: u})
+		add(vfStep{Op: "login", Sess: "s2", User: u})
+		if chance(r, 0.8) {
+			add(vfStep{Op: "dbfail", N: int64(1 + r.IntN(7))})
+		}
+		add(vfStep{Op: "bootstrapotp", Sess: "s1"})
+		add(vfStep{Op: "bootstrapotp", Sess: "s2"})
+		add(vfStep{Op: "certgen", Sess: "s1", User: u, A: "x509", B: "user_p256_1"})
+		add(vfStep{Op: "certgen", Sess: "s2", User: u, A: "x509", B: "user_p256_1"})
+		sessUser["s1"], sessUser["s2"] = u, u
+		n = 4 + r.IntN(6)
+	}
 	mintShare := 0.25
 	if focus == "C01" {
 		mintShare = 0.6
@@ -205,6 +228,30 @@ func genAuthPlan(r *rand.Rand, tier, focus string) *vfPlan {
 					add(st)
 				}
 			case 4:
+				if chance(r, 0.5) {
+					// the WebAuthn endpoints (U2F-compatible branch)
+					add(vfStep{Op: "webauthn_begin", Sess: s})
+					if chance(r, 0.85) {
+						tok := anyTok()
+						if l := enrolledU2F[u]; len(l) > 0 && chance(r, 0.7) {
+							tok = pick(r, l)
+						}
+						ps := s
+						if chance(r, 0.2) {
+							ps = pick(r, vfSessNames)
+						}
+						st := vfStep{Op: "webauthn_finish", Sess: ps, Target: tok}
+						if chance(r, 0.3) {
+							st.A = pick(r, []string{"sess:" + pick(r, vfSessNames), "stale", "replay"})
+						}
+						add(st)
+						if chance(r, 0.3) {
+							// the identical assertion delivered again, by the same or another session of the user
+							add(vfStep{Op: "webauthn_finish", Sess: pick(r, vfSessNames), Target: tok, A: "sess:" + ps})
+						}
+					}
+					break
+				}
 				add(vfStep{Op: "u2fsignreq", Sess: s})
 				if chance(r, 0.85) {
 					tok := anyTok()
@@ -222,7 +269,13 @@ func genAuthPlan(r *rand.Rand, tier, focus string) *vfPlan {
 					add(st)
 				}
 			case 5:
+				if chance(r, 0.3) {
+					add(vfStep{Op: "dbfail", N: int64(1 + r.IntN(6))})
+				}
 				add(vfStep{Op: "bootstrapotp", Sess: s, A: pick(r, []string{"", "", "wrong", "used", "other:" + pick(r, vfHonestUsers)})})
+				if chance(r, 0.3) {
+					add(vfStep{Op: "bootstrapotp", Sess: pick(r, vfSessNames), A: ""})
+				}
 			case 6:
 				add(vfStep{Op: "pushpoll", Sess: s, A: "sess:" + pick(r, vfSessNames)})
 			}
